@@ -11,6 +11,8 @@ CLAIMED = {
             'theorems take codec laws (round trip of the written text, newline encodings) as explicit hypotheses; see DESIGN.md section 5 C01'),
     'C02': ('Lean 4 theorems: every header the writer model renders is in the specification grammar with sorted options, declared length = exact content length, content ends with the BOM-free newline, indentation prefixes every line; byte-for-byte three-way comparison with an independent serializer written from the specification',
             'codecs / json.dumps are environment parameters; conformance of the real writer rests on the correspondence run'),
+    'C03': ('Lean 4 theorems about one reader iteration from any loop state: blank lines before a header are skipped, container / main headers yield container records (main only with a supported version), a conforming content section yields exactly the record the specification describes (header options, content returned by _read_content for exactly length bytes with the nearest declared encoding; diffs own option only), and each catalogue defect (bad version, bad format, unknown line_endings, missing trailing newline, invalid / non-object JSON) is rejected at the designated line; foreign files from a specification-derived generator and their single-defect mutations compared three ways',
+            'header grammar, order, encoding scope, framing and block size are separate theorems (C11, C10, C04, C07, C17); whole-file agreement is decided differentially against harness/specdoc.py'),
     'C04': ('Lean 4 theorems (induction over every nested container history): reader and writer stacks equal the specification (nearest declaring ancestor), siblings never leak, diffs never inherit; exhaustive small-scope correspondence on reader and writer',
             'stack updates extracted as Reader.pushEnc / Writer.pushFrame mirror reader.py:252-266 and writer.py:452-460 (validated differentially)'),
     'C05': ('Lean 4 theorems about the object-model models: to_bytes is the streaming writer run on the tree\'s call sequence (hence canonical by C02) and raises the first failure in document order, falsy contents are skipped, the loader rebuilds the shape (changes / files per change) for every record list, carries options verbatim minus length, and fails only with library errors (or the D13b TypeError); random trees through the public API against to_bytes / from_bytes with an independently written normalisation as oracle',
